@@ -10,7 +10,11 @@ if os.path.exists('/tmp/seed2res/final.log'):
         m = re.match(r'(seed[23]out) (C\d\d)-(\d) check=(C\d\d) rc=(\d+) ?(.*)', line.strip())
         if m:
             rnd = 'r2' if m.group(1) == 'seed2out' else 'r3'
-            final.setdefault(f"{m.group(2)}-{rnd}-{m.group(3)}", {})[m.group(4)] = {'exit': int(m.group(5)), 'first_violation': m.group(6).strip()}
+            txt = m.group(6).strip()
+            sub = re.search(r'\[subset: (.*)\]$', txt)
+            rec = {'exit': int(m.group(5)), 'first_violation': re.sub(r'\s*\[subset: .*\]$', '', txt)}
+            rec['evaluated_with'] = ('harness subset of the registered quick check: ' + sub.group(1)) if sub else 'the complete registered quick check'
+            final.setdefault(f"{m.group(2)}-{rnd}-{m.group(3)}", {})[m.group(4)] = rec
 rows = []
 for rnd, base, pref in (('r2', '/tmp/seed2out', ''), ('r3', '/tmp/seed3out', 'r3_')):
     for d in sorted(glob.glob(base + '/C*/[0-9]')):
